@@ -26,3 +26,15 @@ Theorem relaxed_admits_unsized blk p (rho : subs) :
   (relaxed (block_bounds blk) p ||
    match lookup rho p with Some (VType v) => negb (unsized_ty v) | _ => true end) = true.
 Proof. intro H. rewrite H. reflexivity. Qed.
+
+From DI.proofs Require Import Basics SupersetSound.
+
+(* a block only ever applies to queries whose (trait arguments, self type) are an instance
+   of its own header: it never answers for different trait arguments *)
+Theorem applies_only_instances W blk q :
+  applies W blk q = true ->
+  exists s, sup (block_header blk) q = Some s /\ equivb (apply s (block_header blk)) q = true.
+Proof.
+  unfold applies. destruct (sup (block_header blk) q) as [s|] eqn:E; [|discriminate].
+  intros _. exists s. split; auto. apply sup_sound; exact E.
+Qed.
